@@ -1,0 +1,16 @@
+//go:build verif
+
+package kvdb
+
+// Machine-checked contracts for /verif (read as text by the VC generator; no code).
+// Interface contracts assumed of every implementation that is an input of the
+// functions under contract (and proved of the implementations in this repository
+// that are claimed, see /verif/DESIGN.md).
+//
+// nopen counts OpenDB calls on database producers.
+//@ ghost nopen int
+//@
+//@ iface DBProducer.OpenDB
+//@   modifies nopen
+//@   ghost nopen = old(nopen) + 1
+//@   ensures result1 == nil ==> result0 != nil
